@@ -36,8 +36,16 @@ func c02VMVars(vm *ds.Context) map[string]string {
 
 func c02Case(w *fw.W, idx int, r *fw.Rand) {
 	nprog := r.Range(1, 4)
-	cfg := Cfg{IgnoreDiv0: false, Seed: 5}
+	cfg := Cfg{IgnoreDiv0: r.Bool(), Seed: 5}
 	env := ref.NewEnv()
+	diceLevel := 1
+	switch r.Intn(3) {
+	case 0:
+		cfg.Min, env.Mode, diceLevel = true, -1, 2
+	case 1:
+		cfg.Max, env.Mode, diceLevel = true, 1, 2
+	}
+	env.IgnoreDiv0 = cfg.IgnoreDiv0
 	// one VM per spelling, all sharing the same program sequence
 	spellings := []string{"minimal", "noisy", "noisy2"}
 	vms := make([]*ds.Context, len(spellings))
@@ -50,7 +58,7 @@ func c02Case(w *fw.W, idx int, r *fw.Rand) {
 	}
 	var history []string
 	for p := 0; p < nprog; p++ {
-		g := ref.NewGen(r)
+		g := ref.NewGen(r).WithDice(diceLevel)
 		var prog []*ref.Node
 		if r.Bool() {
 			prog = g.Expr(3)
@@ -78,7 +86,7 @@ func c02Case(w *fw.W, idx int, r *fw.Rand) {
 			vm := vms[si]
 			var err error
 			pv, st := fw.Guard(func() { err = vm.Run(src) })
-			desc := fmt.Sprintf("spelling=%s src=%q earlier=%q", sp, src, history[:len(history)-1])
+			desc := fmt.Sprintf("cfg=%s spelling=%s src=%q earlier=%q", cfg, sp, src, history[:len(history)-1])
 			w.Eval(1)
 			w.Count("judged_runs", 1)
 			if pv != nil {
